@@ -475,6 +475,17 @@ func (g *c08RaftCtl) classifyStale(run *c08Run, tr *c08Truth, a *c08Anomaly) (st
 			return cl, detail
 		}
 	}
+	// Fourth signature: the stale observation is a listing, and the transaction listed the same (prefix, after)
+	// again later on (RaftTransaction keeps one verification entry per (prefix, after); which of the listings it
+	// ships is the implementation's choice and has to cover all of them).
+	if ob.Kind == "list" || ob.Kind == "page" {
+		for _, later := range script[a.ObsIdx+1:] {
+			if (later.Kind == "list" || later.Kind == "page") && later.Key == ob.Key && later.After == ob.After {
+				detail["later_listing_of_same_prefix_and_after"] = later.String()
+				return "C08-raft-txn-relisting-same-prefix-and-after-loses-earlier-verification", detail
+			}
+		}
+	}
 	// Second signature (disagreement found by this monitor): the transaction saw a *complete* listing
 	// (iteration reached the end of the prefix), the verification was really performed (not the F7 fast
 	// path), and at commit time the store lists exactly what the transaction saw in storage plus entries
@@ -549,7 +560,7 @@ func TestVerif_C08_Raft(t *testing.T) {
 		return
 	}
 	b, ctl := c08RaftNode(t)
-	st := &c08Stack{Name: "raft", MaxPlain: 3, Gate: ctl, Reset: ctl.Reset, Jitter: ctl.Jitter, Truth: ctl.truth, ClassifyStale: ctl.classifyStale}
+	st := &c08Stack{Name: "raft", MaxPlain: 3, Gate: ctl, Reset: ctl.Reset, Jitter: ctl.Jitter, Truth: ctl.truth, ClassifyStale: ctl.classifyStale, Relist: kit.N(400, 24000)}
 	st.Open = c08RaftOpen(b, ctl, func() physical.Backend { return b })
 	c08RunStack(t, "c08-raft", st, kit.N(400, 24000), kit.N(60, 4800), func(r *kit.Result, sched, free int) {
 		_, shards := kit.Shard()
@@ -570,7 +581,7 @@ func TestVerif_C08_CacheRaft(t *testing.T) {
 		return
 	}
 	b, ctl := c08RaftNode(t)
-	st := &c08Stack{Name: "cache-raft", MaxPlain: 3, HasCache: true, Hooks: &c08Hooks{}, Reset: ctl.Reset, Jitter: ctl.Jitter, Truth: ctl.truth, ClassifyStale: ctl.classifyStale}
+	st := &c08Stack{Name: "cache-raft", MaxPlain: 3, HasCache: true, Hooks: &c08Hooks{}, Reset: ctl.Reset, Jitter: ctl.Jitter, Truth: ctl.truth, ClassifyStale: ctl.classifyStale, Relist: kit.N(100, 5000)}
 	open := c08RaftOpen(b, ctl, func() physical.Backend {
 		c := physical.NewCache(c08UnderCache(b, st.Hooks), st.CacheSize, log.NewNullLogger(), &metrics.BlackholeSink{})
 		c.SetEnabled(true)
